@@ -23,6 +23,11 @@ pub enum Class {
     V4Header,
     V4HeaderBadSig,
     V4HeaderUnknownKey,
+    /// signed with a registered key's secret while presenting a *spelling variant* of its access key (other case, a proper
+    /// prefix, one character more): not a registered key - a provider must look keys up exactly
+    V4HeaderKeyOtherCase,
+    V4HeaderKeyPrefix,
+    V4HeaderKeySuffixed,
     /// declares a chunk-signed payload; the seed signature is wrong and the body is never read by most operations
     V4StreamingBadSig,
     V4StreamingValidSeed,
@@ -43,6 +48,9 @@ pub const CLASSES: &[Class] = &[
     Class::V4Header,
     Class::V4HeaderBadSig,
     Class::V4HeaderUnknownKey,
+    Class::V4HeaderKeyOtherCase,
+    Class::V4HeaderKeyPrefix,
+    Class::V4HeaderKeySuffixed,
     Class::V4StreamingBadSig,
     Class::V4StreamingValidSeed,
     Class::V4Presigned,
@@ -96,8 +104,14 @@ pub fn dress(base: &sdk::BaseReq, class: Class) -> Option<(Req, Vec<u8>)> {
     let amz_ref: Vec<&str> = amz.iter().map(String::as_str).collect();
     match class {
         Class::Anonymous => {}
-        Class::V4Header | Class::V4HeaderBadSig | Class::V4HeaderUnknownKey | Class::DuplicatedAuthorization => {
-            let scope = if class == Class::V4HeaderUnknownKey { Scope::new("AKIDUNKNOWN000000000", DAY, REGION, "s3") } else { scope };
+        Class::V4Header | Class::V4HeaderBadSig | Class::V4HeaderUnknownKey | Class::V4HeaderKeyOtherCase | Class::V4HeaderKeyPrefix | Class::V4HeaderKeySuffixed | Class::DuplicatedAuthorization => {
+            let scope = match class {
+                Class::V4HeaderUnknownKey => Scope::new("AKIDUNKNOWN000000000", DAY, REGION, "s3"),
+                Class::V4HeaderKeyOtherCase => Scope::new(&AK.to_ascii_lowercase(), DAY, REGION, "s3"),
+                Class::V4HeaderKeyPrefix => Scope::new(&AK[..AK.len() - 1], DAY, REGION, "s3"),
+                Class::V4HeaderKeySuffixed => Scope::new(&format!("{AK}2"), DAY, REGION, "s3"),
+                _ => scope,
+            };
             let sig = sign_v4_header(&mut r, SK, &scope, DATE, &sha256_hex(&body), &amz_ref);
             if class == Class::V4HeaderBadSig {
                 let a = r.get_header("authorization").unwrap().replace(&sig, &flip_hex(&sig));
@@ -376,12 +390,12 @@ pub fn run(ctx: &Ctx) -> (Acc, Report) {
             }
         };
         for (cname, identity, presents, req, body) in &classes {
-            for has_provider in [false, true] {
+            for (has_provider, simple_auth) in [(false, false), (true, false), (true, true)] {
                 for access in ACCESS {
                     let access = if let AccessMode::DenyOp(_) = access { AccessMode::DenyOp(Box::leak(item.op.clone().into_boxed_str())) } else { *access };
                     for route in ROUTES {
                         for host in [HostMode::None, HostMode::Single("s3.example.com".to_owned())] {
-                            let id = || format!("{}#{ii}/{cname}/provider={has_provider}/{access:?}/{route:?}/{host:?}", item.op);
+                            let id = || format!("{}#{ii}/{cname}/provider={}/{access:?}/{route:?}/{host:?}", item.op, if simple_auth { "SimpleAuth" } else if has_provider { "true" } else { "false" });
                             if !a.selected(&id) {
                                 continue;
                             }
@@ -392,6 +406,7 @@ pub fn run(ctx: &Ctx) -> (Acc, Report) {
                                 access,
                                 route: *route,
                                 host: host.clone(),
+                                simple_auth,
                                 ..Default::default()
                             };
                             let (svc, log) = cfg.build();
@@ -422,7 +437,7 @@ pub fn run(ctx: &Ctx) -> (Acc, Report) {
     });
     let rep = Report {
         level: "exploration",
-        rule: format!("full product: {n_ops} operations (SDK-encoded base request) + the POST form x 16 request classes (anonymous; valid V4 header/presigned, V2 header/presigned; each with a wrong signature; unknown key; expired; duplicated, malformed Authorization) x provider {{none, present}} x access hook {{none, allow, deny, deny-by-operation, deny-in-typed-hook, default re-implemented, check inherited from the trait}} x route {{none, match-all, never, match-all-open, match-all with check_access inherited from the trait}} x host parser {{none, single}}. Oracle: reference monitor over the ordered event log of recording S3Auth / S3Access::check / typed hook / S3Route / backend. Every case is non-trivial; distinct by id."),
+        rule: format!("full product: {n_ops} operations (SDK-encoded base request) + the POST form x 19 request classes (anonymous; valid V4 header/presigned, V2 header/presigned; each with a wrong signature; unknown key; a registered key's secret under a spelling variant of its access key - other case, proper prefix, one character more; expired; duplicated, malformed Authorization) x provider {{none, a recording one, the library's own SimpleAuth}} x access hook {{none, allow, deny, deny-by-operation, deny-in-typed-hook, default re-implemented, check inherited from the trait}} x route {{none, match-all, never, match-all-open, match-all with check_access inherited from the trait}} x host parser {{none, single}}. Oracle: reference monitor over the ordered event log of recording S3Auth / S3Access::check / typed hook / S3Route / backend. Every case is non-trivial; distinct by id."),
         exhaustive: true,
         extra: json!({"operations": n_ops, "histories": hist_n, "history_requests_executed": hist_steps, "history_rule": "all sequences of length 1..2 (thorough 3) over 25 requests (four signature schemes x two identities x honest / signed with the other identity's secret x scopes, and an anonymous request) on one service instance, single-threaded, fixed order; each verdict and the identity shown = the reference verdict of that request alone"}),
         assumptions: vec![
